@@ -49,13 +49,14 @@ func (mf *MethodFacts) SetBefore(em Emission, field string) bool {
 
 type Extractor struct {
 	*Evaluator
-	Conv     *types.Named
-	Sinks    map[*ssa.Function]bool
-	emitters map[*ssa.Function]bool
-	Methods  map[string]*MethodFacts
-	Order    []string
-	seq      int
-	loops    map[*ssa.Function]map[*ssa.BasicBlock]bool
+	Conv        *types.Named
+	Sinks       map[*ssa.Function]bool
+	emitters    map[*ssa.Function]bool
+	Methods     map[string]*MethodFacts
+	Order       []string
+	seq         int
+	loops       map[*ssa.Function]map[*ssa.BasicBlock]bool
+	sinkOfField map[string]string // output buffer field -> name of the sink that appends to it
 }
 
 // NewExtractor finds the converter type of a back end (the type whose pointer
@@ -106,6 +107,17 @@ func NewExtractor(w *World, role string) (*Extractor, error) {
 									for _, rr := range *ia.Referrers() {
 										if st, ok := rr.(*ssa.Store); ok && st.Val == fn.Params[1] {
 											x.Sinks[fn] = true
+											// the buffer the sink appends to: a bulk append to the same field is an emission too
+											for _, cr := range *c.Referrers() {
+												if st2, ok := cr.(*ssa.Store); ok {
+													if fa, ok := st2.Addr.(*ssa.FieldAddr); ok && x.isConvPtr(fa.X.Type()) {
+														if x.sinkOfField == nil {
+															x.sinkOfField = map[string]string{}
+														}
+														x.sinkOfField[structFieldName(fa.X.Type(), fa.Field)] = fn.Name()
+													}
+												}
+											}
 										}
 									}
 								}
@@ -269,6 +281,11 @@ func (x *Extractor) walkAt(fn *ssa.Function, e *env, mf *MethodFacts, via []stri
 			case *ssa.Store:
 				if fa, ok := ins.Addr.(*ssa.FieldAddr); ok && x.isConvPtr(fa.X.Type()) {
 					name := structFieldName(fa.X.Type(), fa.Field)
+					// several lines appended to an output buffer at once (buf = append(buf, lines...)):
+					// one emission per line, as if the sink had been called for each
+					if x.bulkEmit(fn, b, ins, name, e, mf, via, topPos, loops[b]) {
+						continue
+					}
 					mf.FieldsSet[name] = append(mf.FieldsSet[name], describeVal(x.eval(ins.Val, e)))
 					mf.SetOrder = append(mf.SetOrder, name)
 				}
@@ -327,6 +344,47 @@ func (x *Extractor) walkAt(fn *ssa.Function, e *env, mf *MethodFacts, via []stri
 			}
 		}
 	}
+}
+
+// bulkEmit: buf = append(buf, lines...) on an output buffer outside its sink.
+func (x *Extractor) bulkEmit(fn *ssa.Function, b *ssa.BasicBlock, ins *ssa.Store, field string, e *env, mf *MethodFacts, via []string, topPos token.Pos, inLoop bool) bool {
+	sink, isBuf := x.sinkOfField[field]
+	if !isBuf || x.Sinks[fn] {
+		return false
+	}
+	ap, ok := ins.Val.(*ssa.Call)
+	if !ok {
+		return false
+	}
+	bi, ok := ap.Call.Value.(*ssa.Builtin)
+	if !ok || bi.Name() != "append" || len(ap.Call.Args) != 2 {
+		return false
+	}
+	l, ok := x.eval(ap.Call.Args[1], e).(ListV)
+	if !ok {
+		return false
+	}
+	pos := topPos
+	if !pos.IsValid() {
+		pos = ins.Pos()
+	}
+	emitOne := func(v Val, loop bool) {
+		em := Emission{Method: mf.Name, Via: append([]string{}, via...), Sink: sink, T: norm(asTmpl(v)), Conds: x.controlConds(b, e), InLoop: loop || inLoop, Pos: pos, SinkPos: ins.Pos()}
+		x.emit(mf, em)
+	}
+	if l.IsFinite {
+		for _, el := range l.Finite {
+			emitOne(el, false)
+		}
+		return true
+	}
+	for _, el := range l.Prefix {
+		emitOne(el, false)
+	}
+	if l.Elem != nil {
+		emitOne(l.Elem, true)
+	}
+	return true
 }
 
 // walkEffects records converter-field stores of functions that do not emit.
